@@ -15,6 +15,7 @@ package props
 import (
 	"fmt"
 	"sync"
+	"sync/atomic"
 	"testing"
 	"time"
 
@@ -41,7 +42,7 @@ func genC17(t *rapid.T) c17Case {
 	for i := 0; i < n; i++ {
 		l := fmt.Sprintf("r%d", i)
 		loc := rapid.SampledFrom([]string{"la", "la", "lb", "never"}).Draw(t, l+".loc")
-		op := rapid.SampledFrom([]string{"create", "addFact", "addFact", "addFact", "getFact", "remFact", "search", "search", "addRule", "ingest", "listRules", "size", "setParents", "getParents", "query", "enabled", "disable", "clear", "delete"}).Draw(t, l+".op")
+		op := rapid.SampledFrom([]string{"create", "addFact", "addFact", "addFact", "getFact", "remFact", "search", "search", "addRule", "ingest", "listRules", "size", "setParents", "getParents", "query", "enabled", "disable", "clear", "delete", "enable", "remRule", "getRule", "searchRules", "stats", "clearStats"}).Draw(t, l+".op")
 		if loc == "never" && op == "create" {
 			op = "getFact"
 		}
@@ -62,7 +63,12 @@ func genC17(t *rapid.T) c17Case {
 		case "addRule":
 			p["rule"] = M{"when": M{"pattern": M{"e": "?x"}}, "condition": M{"pattern": M{"k": "?x"}}, "action": M{"code": "'fired ' + x"}}
 			p["id"] = rapid.SampledFrom([]string{"r1", "r2"}).Draw(t, l+".id")
-		case "enabled", "disable":
+		case "searchRules":
+			p["event"] = M{"e": rapid.SampledFrom([]string{"x", "y"}).Draw(t, l+".e")}
+			if rapid.Bool().Draw(t, l+".inh") {
+				p["inherited"] = true
+			}
+		case "enabled", "disable", "enable", "remRule", "getRule":
 			p["id"] = rapid.SampledFrom([]string{"r1", "r2"}).Draw(t, l+".id")
 		case "ingest":
 			p["event"] = M{"e": rapid.SampledFrom([]string{"x", "y"}).Draw(t, l+".e")}
@@ -328,4 +334,188 @@ func runC17b(c c17bCase) *vlib.Outcome {
 
 func TestC17Concurrent(t *testing.T) {
 	vlib.Check(t, "C17", genC17b, runC17b)
+}
+
+// ---------------------------------------------------------------------
+// part 3: concurrent first requests with existence checking
+//
+// Clients issue their first requests for a location that does not exist
+// yet: checked requests (which must fail until the location has been
+// created), unchecked loads (what a child location's inherited search does
+// for its parent) and CreateLocation.  Once a CreateLocation has returned
+// without error, the location exists for every request that starts
+// afterwards — whatever failed loads were going on beside it.
+
+type c17cCase struct {
+	Linear  bool       `json:"linear"`
+	TTL     int        `json:"ttl"` // 0 forever, 1 = 1 h, 2 = 1 ms
+	Clients [][]string `json:"clients"` // per client: size | parent | create
+	Spin    []int      `json:"spin"`
+	Noise   int        `json:"noise,omitempty"`
+	// Prefill: records put into the location's storage beforehand, so
+	// that loading it takes a while.
+	Prefill int `json:"prefill,omitempty"`
+}
+
+func genC17c(t *rapid.T) c17cCase {
+	var c c17cCase
+	c.Linear = rapid.Bool().Draw(t, "linear")
+	c.TTL = rapid.SampledFrom([]int{0, 0, 1, 2}).Draw(t, "ttl")
+	n := rapid.IntRange(2, 8).Draw(t, "n")
+	creators := 0
+	for i := 0; i < n; i++ {
+		var reqs []string
+		m := rapid.IntRange(1, 4).Draw(t, fmt.Sprintf("c%d.n", i))
+		for j := 0; j < m; j++ {
+			k := rapid.SampledFrom([]string{"size", "size", "parent", "create"}).Draw(t, fmt.Sprintf("c%d.r%d", i, j))
+			if k == "create" {
+				creators++
+			}
+			reqs = append(reqs, k)
+		}
+		c.Clients = append(c.Clients, reqs)
+		c.Spin = append(c.Spin, rapid.SampledFrom([]int{0, 0, 10, 100, 1000, 10000}).Draw(t, fmt.Sprintf("spin%d", i)))
+	}
+	if creators == 0 {
+		c.Clients[n-1] = append(c.Clients[n-1], "create")
+	}
+	if rapid.IntRange(0, 3).Draw(t, "noise?") != 0 {
+		c.Noise = rapid.IntRange(1, 1000).Draw(t, "noise")
+	}
+	c.Prefill = rapid.SampledFrom([]int{0, 0, 200, 900}).Draw(t, "prefill")
+	return c
+}
+
+func runC17c(c c17cCase) *vlib.Outcome {
+	o := &vlib.Outcome{}
+	if len(c.Clients) < 2 || len(c.Clients) > 32 || len(c.Spin) < len(c.Clients) || c.Prefill > 900 {
+		o.Discard = true
+		return o
+	}
+	ttl := sys.Forever
+	switch c.TTL {
+	case 1:
+		ttl = time.Hour
+	case 2:
+		ttl = time.Millisecond
+	}
+	s, err := c17System(c.Linear, true, ttl)
+	if err != nil {
+		o.Fail("NEWSYSTEM", "%v", err)
+		return o
+	}
+	if c.Prefill > 0 {
+		s.GetLocation(newCtx(), "elsewhere") // (the System opens its storage with the first request)
+		st, err := s.PeekStorage(newCtx())
+		if err != nil || st == nil {
+			o.Fail("NEWSYSTEM", "no storage: %v", err)
+			return o
+		}
+		for i := 0; i < c.Prefill; i++ {
+			p := core.Pair{K: []byte(fmt.Sprintf("old%d", i)), V: []byte(fmt.Sprintf(`{"old":"o%d"}`, i))}
+			if err := st.Add(newCtx(), "shared", &p); err != nil {
+				o.Fail("NEWSYSTEM", "prefill: %v", err)
+				return o
+			}
+		}
+		o.Label("slow-load")
+	}
+	if c.Noise > 0 {
+		_, end := startNoise(c.Noise)
+		defer end()
+		o.Label("schedule-noise")
+	}
+	var wg sync.WaitGroup
+	start := make(chan struct{})
+	n := len(c.Clients)
+	fails := make([]string, n)
+	var failed int32
+	overlapped := false
+	var mu sync.Mutex
+	inFlightFail := 0
+	for i := 0; i < n; i++ {
+		wg.Add(1)
+		go func(i int) {
+			defer wg.Done()
+			<-start
+			x := 0
+			for j := 0; j < c.Spin[i]; j++ {
+				x += j
+			}
+			_ = x
+			for j, k := range c.Clients[i] {
+				switch k {
+				case "size":
+					mu.Lock()
+					inFlightFail++
+					mu.Unlock()
+					_, err := s.GetSize(newCtx(), "shared")
+					mu.Lock()
+					inFlightFail--
+					mu.Unlock()
+					if err != nil {
+						atomic.AddInt32(&failed, 1)
+					}
+				case "parent":
+					s.GetLocation(newCtx(), "shared")
+				case "create":
+					mu.Lock()
+					if inFlightFail > 0 {
+						overlapped = true
+					}
+					mu.Unlock()
+					if _, err := s.CreateLocation(newCtx(), "shared"); err != nil {
+						fails[i] = fmt.Sprintf("request %d CreateLocation failed: %v", j, err)
+						return
+					}
+					// created and acknowledged: from now on the
+					// location is there
+					id := fmt.Sprintf("c%d.%d", i, j)
+					if _, err := s.AddFact(newCtx(), "shared", id, `{"by":"`+id+`"}`); err != nil {
+						fails[i] = fmt.Sprintf("request %d: CreateLocation returned without error, and this client's AddFact right afterwards failed: %v", j, err)
+						return
+					}
+					if _, err := s.GetFact(newCtx(), "shared", id); err != nil {
+						fails[i] = fmt.Sprintf("request %d: the fact %s, written after CreateLocation, was acknowledged and is not found: %v", j, id, err)
+						return
+					}
+				}
+			}
+		}(i)
+	}
+	close(start)
+	wg.Wait()
+	if overlapped || atomic.LoadInt32(&failed) > 0 {
+		o.NonTrivial = true
+	}
+	for i, f := range fails {
+		if f != "" {
+			o.Fail("CREATED_LOCATION_NOT_SERVED", "[linear=%v ttl=%v] client %d of %d %v: %s", c.Linear, ttl, i, n, c.Clients, f)
+			return o
+		}
+	}
+	// afterwards (no concurrency any more): the location exists, and every
+	// acknowledged write is visible
+	for r := 0; r < 2; r++ {
+		if _, err := s.GetSize(newCtx(), "shared"); err != nil {
+			o.Fail("CREATED_LOCATION_NOT_SERVED", "[linear=%v ttl=%v] clients %v: after all clients are done (CreateLocation succeeded), GetSize says: %v", c.Linear, ttl, c.Clients, err)
+			return o
+		}
+	}
+	for i := range c.Clients {
+		for j, k := range c.Clients[i] {
+			if k == "create" {
+				id := fmt.Sprintf("c%d.%d", i, j)
+				if _, err := s.GetFact(newCtx(), "shared", id); err != nil {
+					o.Fail("ACKNOWLEDGED_WRITE_MISSING", "[linear=%v ttl=%v] clients %v: fact %s was written and acknowledged; afterwards: %v", c.Linear, ttl, c.Clients, id, err)
+					return o
+				}
+			}
+		}
+	}
+	return o
+}
+
+func TestC17Create(t *testing.T) {
+	vlib.Check(t, "C17", genC17c, runC17c)
 }
